@@ -42,6 +42,18 @@ def alterations():
                 continue            # that would be a complete (wrong-length) packet, not a partial one
             out.append({"name": f"partial{size}_{n}_then_genuine", "expect_success": True,
                         "hs_list": [{"raw": "8370" + size + "2001" + "ab" * n}, {}, {}]})
+    # a genuine reply that takes its time: lost requests, late replies - still inside the three 2 s read windows,
+    # so the device does prove knowledge of the key and authentication must succeed
+    for lat in (0.5, 1.0, 1.5, 1.9):
+        out.append({"name": f"late_{lat}", "expect_success": True, "hs_list": [{"lat": lat}]})
+        out.append({"name": f"lost_late_{lat}", "expect_success": True, "hs_list": [{"drop": True}, {"lat": lat}]})
+        out.append({"name": f"lost_lost_late_{lat}", "expect_success": True,
+                    "hs_list": [{"drop": True}, {"drop": True}, {"lat": lat}]})
+    # the device pushes a status report right behind its reply (same segment, or the next one in the same instant)
+    out.append({"name": "genuine_then_push_same_segment", "expect_success": True, "hs_list": [{"post_push": "same"}]})
+    out.append({"name": "genuine_then_push_next_segment", "expect_success": True, "hs_list": [{"post_push": "next"}]})
+    out.append({"name": "lost_then_genuine_then_push", "expect_success": True,
+                "hs_list": [{"drop": True}, {"post_push": "same"}]})
     return out
 
 
